@@ -23,7 +23,7 @@ SERIES = [  # (name, impl function, model handler)
 K_ARIAS = math.pi / (2 * 9.81)
 
 
-PROP_MODULES = ['C09', 'C09Gen', 'C09Sem']
+PROP_MODULES = ['C09', 'C09Gen', 'C09Sem', 'C09GenCav']
 
 def ftrapz(y, dx):
     return sum((y[i] + y[i + 1]) for i in range(len(y) - 1)) * dx / 2
